@@ -79,6 +79,10 @@ type accSpec struct {
 	// refused: an application cleaning up after a refused duplicate does exactly that); Again: it is then added again
 	Remove bool `json:"remove_after_add,omitempty"`
 	Again  bool `json:"add_again,omitempty"`
+	// Transplant > 0: this entry is accessory.New + one custom service + the service OBJECTS (all but the information
+	// service) of the object built for entry Transplant-1, which the container had refused or which was removed again:
+	// an application that replaces a refused accessory reuses what it had built for it
+	Transplant int `json:"transplant_services_of,omitempty"`
 }
 
 type recipe struct {
@@ -202,6 +206,27 @@ func objects(rc *recipe) (objs []*accessory.Accessory, skipped int) {
 	for i, sp := range rc.Accs {
 		if sp.Readd > 0 {
 			objs[i] = objs[sp.Readd-1]
+			continue
+		}
+		if sp.Transplant > 0 {
+			src := objs[sp.Transplant-1]
+			if src == nil {
+				continue
+			}
+			info := catalog.DefaultInfo()
+			info.ID = sp.ID
+			a := accessory.New(info, accessory.AccessoryType(sp.Type))
+			extra := service.New(customType)
+			if c, ok := charByName["NewBrightness"]; ok {
+				if ch, p := catalog.SafeChar(c); p == "" && ch != nil {
+					extra.AddCharacteristic(ch)
+				}
+			}
+			a.AddService(extra)
+			for _, sv := range src.Services[1:] {
+				a.AddService(sv)
+			}
+			objs[i] = a
 			continue
 		}
 		a, sk := assemble(sp)
@@ -1140,6 +1165,14 @@ func (g *gen) randRecipe(rnd *rand.Rand) *recipe {
 // that put every service and every characteristic constructor of the catalog into a composition.
 func (g *gen) fixedRecipes() []*recipe {
 	var out []*recipe
+	// a refused (duplicate id) or removed accessory whose services are reused in its replacement
+	for i, n := range g.accs {
+		if i%3 != 0 {
+			continue
+		}
+		out = append(out, &recipe{Kind: "transplant-after-refusal", Accs: []accSpec{{Ctor: g.accs[(i+1)%len(g.accs)], ID: 5}, {Ctor: n, ID: 5}, {Ctor: "New", Type: 5, Transplant: 2}}})
+		out = append(out, &recipe{Kind: "transplant-after-removal", Accs: []accSpec{{Ctor: g.accs[(i+1)%len(g.accs)]}, {Ctor: n, Remove: true}, {Ctor: "New", Type: 5, ID: 9, Transplant: 2}}})
+	}
 	for _, n := range g.accs {
 		out = append(out, &recipe{Kind: "single-automatic", Accs: []accSpec{{Ctor: n}}})
 		out = append(out, &recipe{Kind: "single-explicit", Accs: []accSpec{{Ctor: n, ID: 7}}})
